@@ -127,9 +127,23 @@ def sensitivity(tier, seed, only=None):
     results = []
     t00 = time.time()
     run_suite = os.environ.get("VERIF_SENS_SUITE", "1") == "1"
-    for m in _patches():
-        if only and only not in m["id"]:
-            continue
+    todo = [m for m in _patches() if not (only and only not in m["id"])]
+    par = int(os.environ.get("VERIF_SENS_PAR", "1"))
+    if par > 1:
+        # several patches at a time (each check still uses the whole fleet; the serial
+        # phases of one overlap with the parallel phases of another)
+        from concurrent.futures import ThreadPoolExecutor
+        with ThreadPoolExecutor(max_workers=par) as ex:
+            results = list(ex.map(lambda m_: _sens_one(m_, tier, seed, run_suite), todo))
+        todo = []
+    for m in todo:
+        results.append(_sens_one(m, tier, seed, run_suite))
+    return _sens_finish(results, only, seed, tier, t00)
+
+
+def _sens_one(m, tier, seed, run_suite):
+    results = []  # (kept for the early-return paths below)
+    if True:
         work = os.path.join(SCRATCH, "sens-%d-%s" % (os.getpid(), m["id"]))
         shutil.rmtree(work, ignore_errors=True)
         rec = dict(m)
@@ -142,7 +156,7 @@ def sensitivity(tier, seed, only=None):
                 rec["detail"] = (ap.stdout + ap.stderr)[-300:]
                 results.append(rec)
                 print("sensitivity %-40s %s" % (m["id"], rec["status"]))
-                continue
+                return rec
             if run_suite:
                 try:
                     t = subprocess.run(["/venv/bin/python", "-m", "pytest", "-q", "-x", "-p", "no:cacheprovider",
@@ -158,7 +172,7 @@ def sensitivity(tier, seed, only=None):
                     rec["status"] = "killed-by-suite"
                     results.append(rec)
                     print("sensitivity %-40s killed-by-suite (not counted)" % m["id"])
-                    continue
+                    return rec
             env = dict(os.environ, VERIF_REPO=work, VERIF_EVIDENCE_DIR=os.path.join(work, "_evidence"),
                        VERIF_REPLAY_DIR=os.path.join(work, "_replays"), VERIF_SEED=str(seed),
                        VERIF_MINIMISE_S="15", VERIF_MAX_GROUPS="2")
@@ -185,10 +199,13 @@ def sensitivity(tier, seed, only=None):
             rec["seconds"] = round(time.time() - t0, 1)
         finally:
             shutil.rmtree(work, ignore_errors=True)
-        results.append(rec)
         print("sensitivity %-40s %-9s suite_passes=%s exit=%s %ss %s" % (
             m["id"], rec.get("status"), rec.get("suite_passes"), rec.get("check_exit"), rec.get("seconds"),
-            (rec.get("first_violation") or [""])[-1][:140]))
+            (rec.get("first_violation") or [""])[-1][:140]), flush=True)
+        return rec
+
+
+def _sens_finish(results, only, seed, tier, t00):
     os.makedirs(OUT_DIR, exist_ok=True)
     if not only:
         with open(os.path.join(OUT_DIR, "sensitivity.json"), "w") as fh:
